@@ -142,3 +142,15 @@ theories/OpenMode/OpenMode.vos theories/OpenMode/OpenMode.vok theories/OpenMode/
 theories/Properties_C13.vo theories/Properties_C13.glob theories/Properties_C13.v.beautified theories/Properties_C13.required_vo: theories/Properties_C13.v theories/OpenMode/OpenMode.vo
 theories/Properties_C13.vio: theories/Properties_C13.v theories/OpenMode/OpenMode.vio
 theories/Properties_C13.vos theories/Properties_C13.vok theories/Properties_C13.required_vos: theories/Properties_C13.v theories/OpenMode/OpenMode.vos
+theories/Gen/FeatureMasks.vo theories/Gen/FeatureMasks.glob theories/Gen/FeatureMasks.v.beautified theories/Gen/FeatureMasks.required_vo: theories/Gen/FeatureMasks.v 
+theories/Gen/FeatureMasks.vio: theories/Gen/FeatureMasks.v 
+theories/Gen/FeatureMasks.vos theories/Gen/FeatureMasks.vok theories/Gen/FeatureMasks.required_vos: theories/Gen/FeatureMasks.v 
+theories/Tune/FeatureEdit.vo theories/Tune/FeatureEdit.glob theories/Tune/FeatureEdit.v.beautified theories/Tune/FeatureEdit.required_vo: theories/Tune/FeatureEdit.v theories/Gen/FeatureMasks.vo
+theories/Tune/FeatureEdit.vio: theories/Tune/FeatureEdit.v theories/Gen/FeatureMasks.vio
+theories/Tune/FeatureEdit.vos theories/Tune/FeatureEdit.vok theories/Tune/FeatureEdit.required_vos: theories/Tune/FeatureEdit.v theories/Gen/FeatureMasks.vos
+theories/Tune/FeatureEditProofs.vo theories/Tune/FeatureEditProofs.glob theories/Tune/FeatureEditProofs.v.beautified theories/Tune/FeatureEditProofs.required_vo: theories/Tune/FeatureEditProofs.v theories/Gen/FeatureMasks.vo theories/Tune/FeatureEdit.vo
+theories/Tune/FeatureEditProofs.vio: theories/Tune/FeatureEditProofs.v theories/Gen/FeatureMasks.vio theories/Tune/FeatureEdit.vio
+theories/Tune/FeatureEditProofs.vos theories/Tune/FeatureEditProofs.vok theories/Tune/FeatureEditProofs.required_vos: theories/Tune/FeatureEditProofs.v theories/Gen/FeatureMasks.vos theories/Tune/FeatureEdit.vos
+theories/Properties_C11.vo theories/Properties_C11.glob theories/Properties_C11.v.beautified theories/Properties_C11.required_vo: theories/Properties_C11.v theories/Gen/FeatureMasks.vo theories/Tune/FeatureEdit.vo theories/Tune/FeatureEditProofs.vo
+theories/Properties_C11.vio: theories/Properties_C11.v theories/Gen/FeatureMasks.vio theories/Tune/FeatureEdit.vio theories/Tune/FeatureEditProofs.vio
+theories/Properties_C11.vos theories/Properties_C11.vok theories/Properties_C11.required_vos: theories/Properties_C11.v theories/Gen/FeatureMasks.vos theories/Tune/FeatureEdit.vos theories/Tune/FeatureEditProofs.vos
